@@ -11,6 +11,23 @@ use crate::types::Value;
 /// Example: "Order.quantity * Order.price" with facts containing Order.quantity=10, Order.price=100
 /// Returns: Value::Integer(1000) or Value::Number(1000.0)
 pub fn evaluate_expression(expr: &str, facts: &Facts) -> Result<Value> {
+    evaluate_expression_at(expr, facts, 0)
+}
+
+/// Longest chain of nested operators the evaluator follows (each operator splits the text and
+/// recurses into both sides); longer input is rejected instead of exhausting the stack.
+const MAX_EXPRESSION_DEPTH: usize = 256;
+
+fn evaluate_expression_at(expr: &str, facts: &Facts, depth: usize) -> Result<Value> {
+    if depth > MAX_EXPRESSION_DEPTH {
+        return Err(RuleEngineError::EvaluationError {
+            message: format!(
+                "Expression nested deeper than {} operators",
+                MAX_EXPRESSION_DEPTH
+            ),
+        });
+    }
+
     let expr = expr.trim();
 
     // Try to evaluate as simple arithmetic expression
@@ -25,8 +42,8 @@ pub fn evaluate_expression(expr: &str, facts: &Facts) -> Result<Value> {
         let op = &expr[pos..pos + 1];
         let right = &expr[pos + 1..].trim();
 
-        let left_val = evaluate_expression(left, facts)?;
-        let right_val = evaluate_expression(right, facts)?;
+        let left_val = evaluate_expression_at(left, facts, depth + 1)?;
+        let right_val = evaluate_expression_at(right, facts, depth + 1)?;
 
         return apply_operator(&left_val, op, &right_val);
     }
@@ -37,8 +54,8 @@ pub fn evaluate_expression(expr: &str, facts: &Facts) -> Result<Value> {
         let op = &expr[pos..pos + 1];
         let right = &expr[pos + 1..].trim();
 
-        let left_val = evaluate_expression(left, facts)?;
-        let right_val = evaluate_expression(right, facts)?;
+        let left_val = evaluate_expression_at(left, facts, depth + 1)?;
+        let right_val = evaluate_expression_at(right, facts, depth + 1)?;
 
         return apply_operator(&left_val, op, &right_val);
     }
